@@ -225,6 +225,22 @@ func rawQueryAfterMutators(c *Ctx) {
 		muts = append(muts, call)
 	}
 	if len(muts) == 0 {
+		// the loop over the mutators may live in a helper of the package: the call of that helper stands for them
+		for _, call := range an.CallsIn(fn, func(ci ssa.CallInstruction, info an.CalleeInfo) bool {
+			h := info.Static
+			if h == nil || h.Pkg == nil || h.Pkg.Pkg.Path() != pkgExecutor || len(h.Blocks) == 0 {
+				return false
+			}
+			return len(an.CallsIn(h, func(c2 ssa.CallInstruction, _ an.CalleeInfo) bool {
+				return c2.Common().IsInvoke() && c2.Common().Method.Name() == "MutateOperationParameters"
+			})) > 0
+		}) {
+			if call.Parent() == fn {
+				muts = append(muts, call)
+			}
+		}
+	}
+	if len(muts) == 0 {
 		c.R.Fail("query-read-after-mutators: CreateOperationContext calls no parameter mutator")
 		return
 	}
